@@ -222,6 +222,9 @@ type cllWalk struct {
 	states []cllCS
 	quiet  bool // replaying a prefix: nothing is emitted
 	steps  int
+	// fwd: the history is inside the label set of the forward-rollout theorems (reconciles, workload progress,
+	// approvals, clock, crashes, faults, and new releases admitted only while the rollout is idle)
+	fwd bool
 }
 
 func cllNewWalk(c *Ctx, sc clScenario) *cllWalk {
@@ -268,7 +271,10 @@ func (w *cllWalk) do(label string) {
 	case label == "env":
 		s.env()
 	case strings.HasPrefix(label, "release:"):
-		s.release(label[len("release:"):])
+		rev := label[len("release:"):]
+		w.fwd = pre.Ro != nil && pre.Ro.Phase == "Healthy" && pre.Ro.HasFinalizer && !pre.Ro.Deleting && pre.Wl != nil && !pre.Wl.InProgressAnno &&
+			pre.Br == nil && rev != pre.Wl.CurrentRevision
+		s.release(rev)
 	case label == "approve":
 		s.approve()
 	case label == "tick":
@@ -276,6 +282,7 @@ func (w *cllWalk) do(label string) {
 	case label == "crash":
 		s.restart()
 	case label == "delete":
+		w.fwd = false
 		s.deleteRollout()
 	default:
 		panic("closedloop: unknown label " + label)
@@ -287,7 +294,7 @@ func (w *cllWalk) do(label string) {
 		if s.panicked {
 			impl = J{"panic": "?"}
 		}
-		w.c.EmitAs("closedloop", "cstep", J{"scenario": w.sc, "hist": hist, "pre": pre, "label": emitLabel}, impl)
+		w.c.EmitAs("closedloop", "cstep", J{"scenario": w.sc, "hist": hist, "pre": pre, "label": emitLabel, "fwd": w.fwd}, impl)
 	}
 	w.hist = append(w.hist, label)
 	w.states = append(w.states, post)
